@@ -92,6 +92,33 @@ func (s Sel) Text() string {
 	return b.String()
 }
 
+// TextDotted prints the selector with every bracket segment (quoted field, index, slice, iterator) that follows
+// another segment written in its dot-spelled form: .a.["b"].[0].[] - the grammar reads the extra dot as an identity
+// segment, which does nothing. Same segments, other spelling.
+func (s Sel) TextDotted() string {
+	if len(s) == 0 {
+		return "."
+	}
+	var b strings.Builder
+	for i, g := range s {
+		t := g.Text()
+		if g.Kind == "id" {
+			if i == 0 {
+				b.WriteString(".")
+			}
+			continue
+		}
+		if !strings.HasPrefix(t, ".") && (i > 0 || true) {
+			b.WriteString(".")
+		}
+		b.WriteString(t)
+	}
+	if b.Len() == 0 {
+		return "."
+	}
+	return b.String()
+}
+
 // State of a reference resolution.
 type State int
 
